@@ -64,6 +64,7 @@ func __modall[T any](x T) {}
 func __same[T any](a, b T) bool { panic("spec") }
 func __cases(x int, vals ...int) bool { return true }
 func __has[K comparable, V any](m map[K]V, k K) bool { _, ok := m[k]; return ok }
+func __disjoint[A any, B any](a []A, b []B) bool { return true }
 `
 
 func loadEngine(repo string, patterns []string, extraOverlay map[string][]byte) (*Engine, error) {
